@@ -1,8 +1,8 @@
 package work
 
 import (
-	"mime"
 	"fmt"
+	"mime"
 
 	"github.com/gabriel-vasile/mimetype/internal/verifsim/core"
 	"github.com/gabriel-vasile/mimetype/internal/verifsim/lib"
